@@ -15,11 +15,30 @@ global size_of usize == 8;
 
 //@ include cursor_spec.inc.rs
 
+// Compaction / CompactionCore: only the fields the extracted code touches; the Arc between them is read through (X18)
 #[verifier::external_body]
-struct Compaction { _p: u8 }
+struct OtherCore { _p: u8 }
+struct CompactionCore { lower_level: usize, upper_level: usize, rest: OtherCore }
+struct Compaction { core: CompactionCore }
+#[verifier::external_body]
+#[derive(Clone, Copy)]
+struct Setsum { _p: u8 }
+//@ extract lsmtk/src/tree/mod.rs | const NUM_LEVELS
+//@ end
 impl Compaction {
+    // GC is restricted to compactions whose upper level is the last level
+//@ extract lsmtk/src/tree/mod.rs | impl Compaction :: fn top_level
+//@ ret r
+//@ post <<
+        r == (self.core.upper_level == NUM_LEVELS - 1),
+//@ >>
+//@ end
+    // compaction.inputs(): `self.core.inputs.iter().copied()`
+    uninterp spec fn n_inputs(&self) -> nat;
     #[verifier::external_body]
-    fn top_level(&self) -> (r: bool) { unimplemented!() }
+    fn inputs_len(&self) -> (r: usize) ensures r == self.n_inputs() { unimplemented!() }
+    #[verifier::external_body]
+    fn input(&self, idx: usize) -> (r: Setsum) requires idx < self.n_inputs() { unimplemented!() }
 }
 #[verifier::external_body]
 struct SplitHint { _p: u8 }
@@ -268,7 +287,36 @@ fn gc_copy<C: Cursor>(cursor: &mut C, gc: &mut Gc, sstmb: &mut SstMultiBuilder) 
 //@ >>
 //@ end
 
+// ---------------------------------------------------------------- which compactions collect garbage
+// the head of perform_compaction: a single-input compaction is a move, a compaction into the last level is a garbage
+// collection, everything else is copied entry for entry (compaction_copy above).  The obligations are the call-site
+// preconditions: perform_garbage_collection is entered only with upper_level == NUM_LEVELS - 1.
+#[verifier::external_body]
+struct LsmTree { _p: u8 }
+impl LsmTree {
+    #[verifier::external_body]
+    fn apply_moving_compaction(&self, compaction: Compaction, output: Setsum) -> (r: Result<(), SError>)
+        requires compaction.n_inputs() == 1,
+    { unimplemented!() }
+    #[verifier::external_body]
+    fn perform_garbage_collection(&self, compaction: Compaction) -> (r: Result<(), SError>)
+        requires compaction.core.upper_level == NUM_LEVELS - 1,
+    { unimplemented!() }
+}
+//@ extract lsmtk/src/tree/mod.rs | impl LsmTree :: fn perform_compaction
+//@ region `if compaction.inputs_len()` .. `compaction.top_level()`
+//@ region-sig <<
+fn compaction_dispatch(tree: &LsmTree, compaction: Compaction) -> (r: Result<(), SError>)
+//@ >>
+//@ region-tail <<
+    Ok(())
+//@ >>
+//@ rewrite X13 `compaction.inputs().count()` => `compaction.inputs_len()`
+//@ rewrite X13 `compaction.inputs().next().unwrap()` => `compaction.input(0)`
+//@ rewrite-re X18 `\bself\.` => `tree.`
+//@ end
+
 //@ contract-lemma lemma_conserved
-//@ min-verified 3
+//@ min-verified 5
 } // verus!
 fn main() {}
